@@ -4,6 +4,7 @@ import (
 	"bytes"
 	"fmt"
 
+	"github.com/go-i2p/common/certificate"
 	"github.com/go-i2p/common/encrypted_leaseset"
 	"github.com/go-i2p/common/key_certificate"
 	"github.com/go-i2p/common/keys_and_cert"
@@ -283,4 +284,76 @@ func runC10(c *core.Ctx) {
 		}
 		c.Sample(gen.Shape{"sig": sig, "crypto": cr, "cert": sh["cert"], "crypto_key_len": cpk, "signing_key_len": spk, "padding_len": 384 - cpk - spk})
 	})
+
+	// ---- the lookups are functions of the code alone, also AFTER the code has been used: every
+	// code is first pushed through the constructors and parsers that take type codes (in both
+	// positions), then looked up again (a constructor that registers what it has seen changes the
+	// verdict of later lookups)
+	c.Job("lookups-after-use", 65536, func(code int, r *core.Rand) {
+		c.Eval(1)
+		in := []byte(fmt.Sprint(code))
+		c.Call("constructors-with-code", in, func() {
+			key_certificate.NewKeyCertificateWithTypes(code, 4)
+			key_certificate.NewKeyCertificateWithTypes(7, code)
+			key_certificate.NewKeyCertificateWithTypes(code, code)
+			if bd := certificate.NewCertificateBuilder(); bd != nil {
+				if _, err := bd.WithKeyTypes(code, code); err == nil {
+					bd.Build()
+				}
+			}
+			if pl, err := certificate.BuildKeyTypePayload(code, code); err == nil {
+				if ct, err := certificate.NewCertificateWithType(certificate.CERT_KEY, pl); err == nil && ct != nil {
+					key_certificate.KeyCertificateFromCertificate(ct)
+				}
+			}
+			key_certificate.NewKeyCertificate(rm.KeyCert(code, code, nil).Encode())
+			key_certificate.ConstructSigningPublicKeyByType(buf[:128], code)
+			signature.NewSignature(buf, code)
+			offline_signature.NewOfflineSignature(1, uint16(code), buf[:32], buf[:64], 7)
+			offline_signature.NewOfflineSignature(1, 7, buf[:32], buf[:64], uint16(code))
+			encrypted_leaseset.NewEncryptedLeaseSet(uint16(code), buf[:32], 1, 1, 0, nil, buf[:80], make([]byte, 64))
+			k := rm.KAC{Cert: rm.KeyCert(code, code, nil)}
+			copy(k.Block[:], buf)
+			keys_and_cert.ReadKeysAndCert(k.Encode())
+		})
+		si, sKnown := rm.SigTypes[code]
+		cl, cKnown := rm.CryptoTypes[code]
+		chk := func(site string, gotKnown, wantKnown bool, gotLen, wantLen int) {
+			if gotKnown != wantKnown {
+				disagree(site, "known-unknown-verdict-after-use", code, fmt.Sprintf("after the code was used by constructors: specification known=%v, lookup known=%v", wantKnown, gotKnown))
+			} else if wantKnown && gotLen != wantLen {
+				disagree(site, "length-differs-after-use", code, fmt.Sprintf("after the code was used by constructors: specification %d, lookup %d", wantLen, gotLen))
+			}
+		}
+		c.Call("size-lookups(after use)", in, func() {
+			n, err := key_certificate.GetSigningKeySize(code)
+			chk("key_certificate.GetSigningKeySize", err == nil, sKnown, n, si.PubLen)
+			n, err = key_certificate.GetSignatureSize(code)
+			chk("key_certificate.GetSignatureSize", err == nil, sKnown, n, si.SigLen)
+			n, err = key_certificate.GetCryptoKeySize(code)
+			chk("key_certificate.GetCryptoKeySize", err == nil, cKnown, n, cl)
+			ks, err := key_certificate.GetKeySizes(code, 0)
+			chk("key_certificate.GetKeySizes(sig)", err == nil, sKnown, ks.SigningPublicKeySize, si.PubLen)
+			ks, err = key_certificate.GetKeySizes(7, code)
+			chk("key_certificate.GetKeySizes(crypto)", err == nil, cKnown, ks.CryptoPublicKeySize, cl)
+			e, ok := key_certificate.SigningKeySizes[code]
+			chk("key_certificate.SigningKeySizes", ok, sKnown, e.SigningPublicKeySize, si.PubLen)
+			e2, ok := key_certificate.CryptoKeySizes[code]
+			chk("key_certificate.CryptoKeySizes", ok, cKnown, e2.CryptoPublicKeySize, cl)
+			n2, ok := key_certificate.SignaturePublicKeySizes[uint16(code)]
+			chk("key_certificate.SignaturePublicKeySizes", ok, sKnown, n2, si.PubLen)
+			n3, ok := key_certificate.CryptoPublicKeySizes[uint16(code)]
+			chk("key_certificate.CryptoPublicKeySizes", ok, cKnown, n3, cl)
+			n, err = signature.SignatureSize(code)
+			chk("signature.SignatureSize", err == nil, sKnown, n, si.SigLen)
+			n = offline_signature.SigningPublicKeySize(uint16(code))
+			chk("offline_signature.SigningPublicKeySize", n != 0, sKnown, n, si.PubLen)
+			n = offline_signature.SignatureSize(uint16(code))
+			chk("offline_signature.SignatureSize", n != 0, sKnown, n, si.SigLen)
+			els := rm.EncryptedLeaseSet{SigType: uint16(code), BlindedKey: buf[:si.PubLen], Published: 1, Expires: 1, Inner: buf[:80], Sig: buf[200 : 200+si.SigLen]}
+			_, _, err = encrypted_leaseset.ReadEncryptedLeaseSet(els.Encode())
+			chk("encrypted_leaseset.ReadEncryptedLeaseSet(sigtype)", err == nil, sKnown, 0, 0)
+		})
+	})
+	c.Exhaustive("all 65,536 codes: 12 constructors/parsers given the code, then 13 lookups of the same code")
 }
